@@ -44,6 +44,7 @@ type RunResult struct {
 	Decoded    any               `json:"decoded,omitempty"`
 	Trace      []simrt.Step      `json:"trace,omitempty"`
 	StateHash  string            `json:"state_hash,omitempty"`
+	Strategy   int               `json:"strategy"`
 }
 
 // Options passed from the controller.
@@ -86,6 +87,7 @@ func RunOne(t *testing.T, mk func() World, c *simrt.Choices, opt Options) (res R
 		synctest.Test(t, func(t *testing.T) {
 			s := simrt.New(c, simrt.Config{KeepTrace: opt.KeepTrace})
 			s.InitStrategy()
+			res.Strategy = s.Strategy*10 + s.C.SwitchPermille/100
 			s.Run(func() { w.Drive(s, &res) })
 			res.Violations = append(res.Violations, s.Violations...)
 			res.Steps = s.Steps()
